@@ -1268,6 +1268,16 @@ func (c *c02Cell) concurrentIssue(P *c02Inst) {
 				c.detail(P, it.parts, map[string]interface{}{"issued_to": it.want.short(), "decodes_to": out.Id.short(), "how": it.via + ", many users at the same time"}))
 		}
 	})
+	// Redis store: distinctness / independence of tickets issued at the same time (c02_unique.go)
+	if P.Store == "redis" {
+		var tks []c02TicketRec
+		for i := range logins {
+			if tk := c02TicketOf(c02Join(logins[i].parts)); tk.OK {
+				tks = append(tks, c02TicketRec{ID: tk.ID, Secret: tk.Secret, Who: logins[i].who.Email, Via: logins[i].via, Cookie: c02Header(logins[i].parts)})
+			}
+		}
+		c.concurrentTickets(P, tks)
+	}
 	// a few of them take part in the similarity check
 	for i := 0; i < len(all) && i < 24; i++ {
 		if P.Store == "cookie" {
@@ -1528,6 +1538,7 @@ func TestVerif_C02(t *testing.T) {
 		"cell = (store[, expire=0], secret form, credential kind, target instance, mutation class, position bucket); opacity: key-less recovery of every cookie and Redis value; " +
 		"uniqueness of every CFB IV under one cookie secret and of every GCM nonce among the versions of one store entry (one session re-saved 3x through the same cookie by real token refreshes per group); " +
 		"concurrent issuing (16 goroutines of real logins of different users, 64 goroutines x SaveSession of distinct sessions), every issued cookie presented unmodified must decode to its own user in all six fields, race-detector reports in session / encryption code are violations; " +
+		"Redis store: thousands of sessions saved at once through the instance's SaveSession (32 goroutines) and through the store-independent ticket issuer over an in-memory store (16 goroutines): one store entry per save, every cookie decodes to its own session, no 8-byte block of any ticket id / ticket secret occurs twice among all tickets issued; " +
 		"known-answer check of the cookie cipher (independent AES-CFB decryption with the known secret must give the LZ4/msgpack plaintext); no two cookie payloads share >= 24 equal ciphertext bytes at equal offsets; " +
 		"login with a planted cookie (Redis store; OAuth callback and htpasswd form sign-in; made-up tickets signed with another secret / unsigned / zero-signed / value only / legacy-shaped, own ticket with broken signature, own ticket two lifetimes old, own valid ticket live / signed out): the ticket issued and the store key written are never the client's, nothing the attacker holds decodes to the victim; " +
 		"entropy faults (Redis store, sequential: crypto/rand.Reader failing every 16-/12-byte read or read #1..4, whole or after half of the bytes, around single htpasswd form sign-ins): a login fails cleanly or yields a non-degenerate, unshared ticket whose store entry does not open with an all-zero key; " +
@@ -1564,7 +1575,7 @@ func TestVerif_C02(t *testing.T) {
 	}
 	if run.Violations() == 0 && (run.Counter("accepted_identical") == 0 || run.Counter("must_reject_variants") == 0 || run.Counter("opacity_values_store-value") == 0 ||
 		run.Counter("issued_without_lifetime_cookie") == 0 || run.Counter("issued_without_lifetime_redis") == 0 || run.Counter("store_version_pairs_xored") == 0 ||
-		run.Counter("ivs_observed_cookie_secret") < 20 || run.Counter("store_derived_keys_tried") == 0 || run.Counter("concurrently_issued_credentials_checked") < 1000 ||
+		run.Counter("ivs_observed_cookie_secret") < 20 || run.Counter("store_derived_keys_tried") == 0 || run.Counter("concurrently_issued_credentials_checked") < 1000 || run.Counter("concurrent_tickets_compared") < 15000 ||
 		run.Counter("cookie_cipher_known_answer_checks") < 20 || run.Counter("sessions_saved_twice_unchanged") == 0 || run.Counter("logins_with_planted_cookie") < 40 ||
 		run.Counter("attacker_cookies_presented_after_victim_login") < 40 || run.Counter("entropy_faults_fired") == 0 || run.Counter("entropy_fault_logins_refused") == 0 ||
 		run.Counter("entropy_fault_logins_completed") == 0) {
